@@ -6,6 +6,9 @@ import TdVerif.Model.Compile
 import TdVerif.Model.InferSize
 import TdVerif.Model.CheckKeys
 import TdVerif.Model.ParseTo
+import TdVerif.Model.NewUnsafe
+import TdVerif.Model.FromTd
+import TdVerif.Model.Memo
 
 namespace TdVerif.Drive
 open TdVerif Sexp
@@ -97,6 +100,33 @@ def ptResToSexp : ParseTo.Res → Sexp
   | .typeError => .atom "TypeError"
   | .runtimeError => .atom "RuntimeError"
 
+def nuNames? : Sexp → Option (Option (List (Option String)))
+  | .atom "none" => some none
+  | .list l => (l.mapM (fun (x : Sexp) => match x with
+      | .atom "none" => some (none : Option String)
+      | .atom a => some (some a)
+      | _ => Option.none)).map some
+  | _ => Option.none
+
+def nuEntry? : Sexp → Option (String × List Nat)
+  | .list [.atom k, .list shp] => (nats? shp).map (fun s => (k, s))
+  | _ => none
+
+def nuResToSexp : NewUnsafe.Res → Sexp
+  | .ok td => tagged "ok" [ofNats td.batch, .list (td.names.map (fun n => match n with | some a => .atom a | none => .atom "none")),
+      .atom (if td.locked then "true" else "false"), .list (td.entries.map (fun e => .list [.atom e.1, ofNats e.2]))]
+  | .valueError => .atom "ValueError"
+  | .runtimeError => .atom "RuntimeError"
+
+def ftEntry? : Sexp → Option (String × Bool)
+  | .list [.atom k, .atom v] => some (k, v == "none")
+  | _ => none
+
+def ftOutToSexp : FromTd.Out → Sexp
+  | .keyError => .atom "KeyError"
+  | .valueError => .atom "ValueError"
+  | .ok d => tagged "ok" (d.map (fun e => .list [.atom e.1, .atom (if e.2 then "none" else "val")]))
+
 def intResToSexp : Except String Int → Sexp
   | .ok r => tagged "ok" [ofInt r]
   | .error e => tagged "err" [.atom e]
@@ -176,6 +206,26 @@ def handleC18 (cmd : String) (args : List Sexp) : Option Sexp :=
       pure (intResToSexp (Gen.stGuard (← asInt? a) (← asInt? b)))
   | "c18.st_loop", [.list xs, k] => do
       pure (intsResToSexp (Gen.stLoop (← ints? xs) (← asInt? k)))
+  -- (c18.new_unsafe ((k (shape…))…) (batch…) names|none lock) → (eager-branch compile-branch)
+  | "c18.new_unsafe", [.list src, .list batch, names, .atom lock] => do
+      let src ← src.mapM nuEntry?; let batch ← nats? batch; let names ← nuNames? names
+      let lk := lock == "true"
+      pure (.list [nuResToSexp (NewUnsafe.newUnsafeEager src batch names lk), nuResToSexp (NewUnsafe.newUnsafeCompile src batch names lk)])
+  -- (c18.from_td (tensor keys…) (expected keys…) none|((k none|val)…)) → (eager-branch compile-branch)
+  | "c18.from_td", [.list tk, .list ek, nt] => do
+      let tk ← tk.mapM asAtom?; let ek ← ek.mapM asAtom?
+      let nt ← (match nt with
+        | .atom "none" => some (none : Option (List (String × Bool)))
+        | .list l => (l.mapM ftEntry?).map some
+        | _ => Option.none)
+      pure (.list [ftOutToSexp (FromTd.fromTdEager tk ek nt), ftOutToSexp (FromTd.fromTdCompile tk ek nt)])
+  -- (c18.memo truth none|true|false) for one class: → ((eager value, memo entry after) (compile-read …) (compile-fresh …))
+  | "c18.memo", [.atom truth, .atom entry] => do
+      let w : Memo.World := ⟨fun _ => truth == "true", if entry == "none" then [] else [(0, entry == "true")]⟩
+      let show1 (r : Bool × List (Nat × Bool)) : Sexp :=
+        .list [.atom (if r.1 then "true" else "false"),
+               .atom (match Memo.memoGet r.2 0 with | some true => "true" | some false => "false" | none => "none")]
+      pure (.list [show1 (Memo.eager w 0), show1 (Memo.compileRead w 0), show1 (Memo.compileFresh w 0)])
   | _, _ => none
 
 end TdVerif.Drive
